@@ -211,7 +211,7 @@ EXTRA_LITERALS = [(FloatV("1e400"), float("inf")), (FloatV("-1e400"), float("-in
 
 
 def shards(tier, seed):
-    return [("direct", s, tier) for s in SCALARS] + [("engine", s, tier) for s in SCALARS[:5]]
+    return [("direct", s, tier) for s in SCALARS] + [("engine", s, tier) for s in SCALARS[:5]] + [("sdl-defaults", "Int", tier)]
 
 
 _SDL = """
@@ -236,6 +236,47 @@ def scalar_object(eng, scalar):
         return getattr(mod, "Scalar" + scalar)()
 
 
+SDL_DEFAULTS = [  # (field, Int literal written as the SDL default, in range?)
+    ("top", "2147483647", True), ("bottom", "-2147483648", True), ("over", "2147483648", False), ("under", "-2147483649", False),
+    ("huge", "3000000000", False), ("wide", "4294967296", False), ("zero", "0", True)]
+
+
+def run_sdl_defaults(out):
+    """Int literals written in the SDL (argument defaults, input-field defaults, list items) obey the same 32-bit range as literals of the
+    query and variables: an in-range default is delivered as that int, an out-of-range one is never delivered"""
+    from tartiflette import Resolver, create_engine
+    name = harness.fresh_name("c10sdl")
+    seen = []
+    sdl = "input Box { v: Int = 4294967296 w: Int = 7 }\ntype Query {\n%s\n  box(b: Box = {}): String\n  items(xs: [Int] = [1, 2147483648]): String\n}" % "\n".join(
+        "  %s(x: Int = %s): String" % (f, lit) for f, lit, _ in SDL_DEFAULTS)
+    for f in [x[0] for x in SDL_DEFAULTS] + ["box", "items"]:
+        def mk(f):
+            async def r(parent, args, ctx, info):
+                seen.append((f, repr(args)))
+                return "ran"
+            return r
+        Resolver("Query." + f, schema_name=name)(mk(f))
+    try:
+        eng = harness.run(create_engine(sdl, schema_name=name))
+    except Exception as e:  # noqa  (refusing the SDL outright is also a way of never delivering the value)
+        out["tables"]["l1"]["sdl-refused"] = 1
+        return
+    for f, lit, ok in SDL_DEFAULTS + [("box", None, False), ("items", None, False)]:
+        del seen[:]
+        resp = harness.run(eng.execute("{ %s }" % f))
+        out["counts"]["evaluations"] += 1
+        out["counts"]["triples"] += 1
+        delivered = [a for g, a in seen if g == f]
+        if ok:
+            if delivered != [repr({"x": int(lit)})] or resp != {"data": {f: "ran"}}:
+                out["violations"].append({"signature": "sdl-default-not-delivered|Int|sdl-literal|int", "summary": "SDL default %s of %s: resolver saw %r, response %r" % (lit, f, delivered, resp),
+                                          "replay": {"scalar": "Int", "mode": "sdl-defaults"}})
+        elif delivered or not resp.get("errors"):
+            out["violations"].append({"signature": "out-of-range-delivered|Int|sdl-literal|int", "summary": "out-of-range Int written in the SDL (%s): resolver saw %r, response %r" % (f, delivered, resp),
+                                      "replay": {"scalar": "Int", "mode": "sdl-defaults"}})
+    harness.forget(name)
+
+
 def run_shard(item):
     mode, scalar = item[0], item[1]
     global VALUES
@@ -255,6 +296,9 @@ def run_shard(item):
     def tab(name, key):
         out["tables"][name][key] = out["tables"][name].get(key, 0) + 1
 
+    if mode == "sdl-defaults":
+        run_sdl_defaults(out)
+        return out
     if mode == "direct":
         st = scalar_object(eng, scalar)
         for raw in VALUES:
